@@ -44,4 +44,38 @@ def solAccepts (quorumF : Nat → Nat) (recover : Bytes → Option Addr) (sigs :
   else if sigs.length < quorumF keys.length then false
   else solSigLoop recover keys sigs true 0
 
+/-! ## Which guardian set's size the count guard reads
+
+The two functions above take the key list of the set the VAA *names* (`getGuardianSet(vm.guardianSetIndex)` resp.
+`getGuardiansInfo(<bytes 1..5>)`) and read its length in the quorum guard.  Whether the sources do that is a fact extracted on
+every run (`Whv.Gen.C07.solGuardSet` / `ralGuardSet`, checks/c07.py): the operand of the guard is resolved through the
+functions' straight-line locals to the set stored under the VAA's own index (`"named"`) or to another stored set
+(`"current"` = the one under `_state.guardianSetIndex` / slot 1).  The functions below model verification on the contract's
+stored sets with that fact as a parameter: the signatures are always checked against the named set's keys, the count guard
+reads the size of the named set only for `"named"` and the size of the current set otherwise. -/
+
+/-- The stored guardian sets as far as verification reads them: the key list under each index (empty: no such set) and the
+current index. -/
+structure ChainSets where
+  sets : Nat → List Addr
+  current : Nat
+
+/-- The key list whose LENGTH the count guard reads. -/
+def guardKeys (guardSet : String) (st : ChainSets) (gsIndex : Nat) : List Addr :=
+  if guardSet = "named" then st.sets gsIndex else st.sets st.current
+
+/-- Solidity `verifyVM` on the stored sets (expiry aside) for a VAA naming set `gsIndex`. -/
+def solVerifyVM (guardSet : String) (quorumF : Nat → Nat) (recover : Bytes → Option Addr) (st : ChainSets) (gsIndex : Nat)
+    (sigs : List Sig) : Bool :=
+  if (st.sets gsIndex).length = 0 then false
+  else if sigs.length < quorumF (guardKeys guardSet st gsIndex).length then false
+  else solSigLoop recover (st.sets gsIndex) sigs true 0
+
+/-- Ralph `parseAndVerifyVAA`'s signature section on the stored sets (expiry aside) for a VAA naming set `gsIndex`. -/
+def ralVerifyVAA (guardSet : String) (quorumF : Nat → Nat) (recover : Bytes → Option Addr) (st : ChainSets) (gsIndex : Nat)
+    (sigs : List Sig) : Bool :=
+  if (st.sets gsIndex).length = 0 then false
+  else if ¬ (quorumF (guardKeys guardSet st gsIndex).length ≤ sigs.length) then false
+  else ralSigLoop recover (st.sets gsIndex) sigs (-1)
+
 end Whv.Contract
